@@ -60,8 +60,9 @@ Dgram(d) ==
       msg == MsgFor(c, CcByte(d.cc), body)
   IN IF ~InSession
      THEN IF d.kind = "garbage"
-          THEN CASE (d.call + d.n) % 3 = 0 -> B(<<6, 0, 255, 7, 6, 0, 1, 2>>)                                  \* too short
-                 [] (d.call + d.n) % 3 = 1 -> SetByte(NullWrapper(0, msg), 18, (msg.v[3] + 1) % 256)                              \* checksum 1 wrong
+          THEN CASE (d.call + d.n) % 4 = 0 -> B(<<6, 0, 255, 7, 6, 0, 1, 2>>)                                  \* too short
+                 [] (d.call + d.n) % 4 = 3 -> B(<<6, 0, 255, 6, 0, 0, 17, 190, 64, 0, 0, 16, 0, 0, 17, 190, 0, 0, 0, 0, 129, 0, 0, 0, 0, 0, 0, 0>>)  \* ASF presence pong
+                 [] (d.call + d.n) % 4 = 1 -> SetByte(NullWrapper(0, msg), 18, (msg.v[3] + 1) % 256)                              \* checksum 1 wrong
                  [] OTHER -> SetByte(NullWrapper(0, msg), -1, (msg.v[Len(msg.v)] + 1) % 256)                    \* checksum 2 wrong
           ELSE NullWrapper(0, msg)
      ELSE CASE d.kind = "garbage" ->
